@@ -48,6 +48,25 @@ Proof.
 Qed.
 Print Assumptions C13_without_readd_refuted.
 
+(** Before the repair (gitindex: changeFiles instead of object.Change.Files) a change with a submodule entry on one
+    side was skipped: a file replaced by a submodule stayed searchable (stale document), a submodule replaced by a file
+    was never indexed (missing document).  Witnesses on the pre-fix variant of the model: *)
+Theorem C13_before_fix_refuted :
+  (exists nb s0 s1 ign b p, b < nb /\
+     view (st_stack (delta_build_ignoring ign nb (full_build nb s0) s1)) b p = [7%N] /\ head_view s1 b p = []) /\
+  (exists nb s0 s1 ign b p, b < nb /\
+     view (st_stack (delta_build_ignoring ign nb (full_build nb s0) s1)) b p = [] /\ head_view s1 b p = [7%N]).
+Proof.
+  split.
+  - (* path 1: file (blob 7) -> gitlink *)
+    exists 1, [[(1, 7); (2, 5)]]%N, [[(2, 5)]]%N, (fun _ p => N.eqb p 1), 0, 1%N.
+    split; [lia|]. vm_compute. split; reflexivity.
+  - (* path 1: gitlink -> file (blob 7) *)
+    exists 1, [[(2, 5)]]%N, [[(1, 7); (2, 5)]]%N, (fun _ p => N.eqb p 1), 0, 1%N.
+    split; [lia|]. vm_compute. split; reflexivity.
+Qed.
+Print Assumptions C13_before_fix_refuted.
+
 (** ---- non-vacuity: a concrete history (2 branches; modify on one branch while the other keeps the old blob; delete;
     pure addition of a blob that another branch already has; revert) — the computed stack and the per-branch views. *)
 Example C13_nonvacuous :
